@@ -239,3 +239,213 @@ def targets(draw, cols, min_n=1, max_n=4, depth=3, types=SCALARS, alias_p=0.3):
         alias = f'x{i}' if draw(st.floats(0, 1)) < alias_p else None
         out.append((e, alias))
     return out
+
+
+# ------------------------------------------------------------------ statements
+
+KEYTYPES = ['int', 'decimal', 'str', 'date', 'bool']
+
+
+@st.composite
+def key_exprs(draw, cols, t=None):
+    """A low-depth non-aggregate expression with a small value domain (so groups repeat and
+    sort keys tie): mostly a bare column."""
+    t = t or draw(st.sampled_from(KEYTYPES))
+    mine = [n for n, ty in cols if ty == t and n != 'rid']
+    if mine and draw(st.integers(0, 3)) > 0:
+        return ['col', draw(st.sampled_from(mine))], t
+    e = draw(exprs(t, [c for c in cols if c[0] != 'rid'], draw(st.integers(0, 2))))
+    if not any(n[0] == 'col' for n in bql.walk(e)):
+        # constant keys fold to equal constants and collide with each other (C05 known finding)
+        return ['mod', ['col', 'rid'], bql.const(draw(st.integers(2, 3)))], 'int'
+    return e, t
+
+
+@st.composite
+def agg_calls(draw, cols):
+    """(expression, type) for one aggregate call with a row-level argument."""
+    cols = [c for c in cols if c[0] != 'rid'] or cols
+    fn = draw(st.sampled_from(['count*', 'count', 'sum', 'sum', 'min', 'max', 'first', 'last']))
+    if fn == 'count*':
+        return ['fn', 'count', [['star']]], 'int'
+    if fn == 'count':
+        t = draw(st.sampled_from(ALLTYPES))
+        return ['fn', 'count', [draw(exprs(t, cols, draw(st.integers(0, 2))))]], 'int'
+    if fn == 'sum':
+        t = draw(st.sampled_from(['int', 'decimal']))
+    elif fn in ('min', 'max'):
+        t = draw(st.sampled_from(KEYTYPES))
+    else:
+        t = draw(st.sampled_from(ALLTYPES))
+    return ['fn', fn, [draw(exprs(t, cols, draw(st.integers(0, 2))))]], t
+
+
+@st.composite
+def agg_exprs(draw, cols):
+    """An aggregate target: an aggregate call, possibly with arithmetic / comparison / function on top."""
+    a, t = draw(agg_calls(cols))
+    k = draw(st.integers(0, 9))
+    if k < 5:
+        return a, t
+    if t in ('int', 'decimal'):
+        form = draw(st.sampled_from(['plus', 'neg', 'ratio', 'cmp', 'mix', 'coalesce']))
+        if form == 'plus':
+            return [draw(st.sampled_from(['add', 'sub', 'mul'])), a, draw(literal('int'))], t
+        if form == 'neg':
+            return ['neg', a], t
+        if form == 'ratio':
+            return ['div', a, ['fn', 'count', [['star']]]], 'decimal'
+        if form == 'cmp':
+            return [draw(st.sampled_from(['gt', 'le', 'eq'])), a, draw(literal('int'))], 'bool'
+        if form == 'coalesce':
+            return ['fn', 'coalesce', [a, draw(literal(t))]], t
+        b, tb = draw(agg_calls(cols))
+        if tb in ('int', 'decimal'):
+            return ['add', a, b], ('int' if t == tb == 'int' else 'decimal')
+        return a, t
+    if t == 'date':
+        return draw(st.sampled_from([['fn', 'year', [a]], ['sub', a, draw(literal('date'))]])), 'int'
+    if t == 'str':
+        return ['fn', 'length', [a]], 'int'
+    return ['isnull', a], 'bool'
+
+
+@st.composite
+def having_exprs(draw, cols):
+    a, t = draw(agg_calls(cols))
+    if t in ('int', 'decimal'):
+        return [draw(st.sampled_from(['gt', 'ge', 'lt', 'ne'])), a, draw(st.sampled_from([bql.const(0), bql.const(1), bql.const(2)]))]
+    return [draw(st.sampled_from(['isnull', 'isnotnull'])), a]
+
+
+@st.composite
+def order_clauses(draw, cols, tlist, aggregate, keyinfo):
+    """ORDER BY items for a target list [(expr, alias)].  keyinfo: list of group-key expressions
+    (aggregate queries) that hidden order keys may use."""
+    items = []
+    for _ in range(draw(st.integers(1, 3))):
+        kind = draw(st.sampled_from(['pos', 'name', 'visible', 'hidden', 'hidden']))
+        key = None
+        if kind == 'pos':
+            key = draw(st.integers(1, len(tlist)))
+        elif kind == 'name':
+            named = [a if a is not None else e[1] for e, a in tlist if a is not None or e[0] == 'col']
+            if named:
+                key = ['col', draw(st.sampled_from(named))]
+        elif kind == 'visible':
+            key = draw(st.sampled_from([e for e, _ in tlist]))
+        if key is None:
+            if aggregate:
+                if keyinfo and draw(st.booleans()):
+                    key = draw(st.sampled_from(keyinfo))
+                else:
+                    key = draw(agg_exprs(cols))[0]
+            else:
+                key = draw(key_exprs(cols))[0]
+        items.append((key, draw(st.sampled_from([None, 'ASC', 'DESC', 'DESC']))))
+    return items
+
+
+def sortable(e, cols):
+    try:
+        return bql.infer(e, dict(cols)) in KEYTYPES
+    except bql.IllTyped:
+        return False
+
+
+@st.composite
+def plain_selects(draw, table, order=None, distinct=None, limit=None, where=None, max_targets=4, types=KEYTYPES):
+    """Non-aggregate SELECT over table (IR)."""
+    cols = table['cols']
+    tl = draw(targets(cols, 1, max_targets, depth=2, types=types))
+    if draw(st.booleans()):
+        tl.append((['col', 'rid'], None))
+    w = draw(st.none() | exprs('bool', cols, 2)) if where is None else (draw(exprs('bool', cols, 2)) if where else None)
+    ob = None
+    if order if order is not None else draw(st.booleans()):
+        ob = draw(order_clauses(cols, tl, False, None))
+        ob = [(k, d) for k, d in ob if isinstance(k, int) or sortable(k, cols)] or None
+        if ob and any(isinstance(k, int) and not sortable(tl[k - 1][0], cols) for k, _ in ob):
+            ob = [(k, d) for k, d in ob if not isinstance(k, int)] or None
+    dis = draw(st.booleans()) if distinct is None else distinct
+    lim = draw(st.none() | st.sampled_from([0, 1, 2, 3, 5, 8, 9, 100])) if limit is None else limit
+    return bql.select(tl, ('table', table['name']), w, order_by=ob, distinct=dis, limit=lim)
+
+
+@st.composite
+def agg_selects(draw, table, order=None, distinct=None, limit=None, having=None):
+    """Aggregate SELECT over table (IR): keys visible/hidden, given by expression/name/position/implicitly."""
+    cols = table['cols']
+    nkeys = draw(st.sampled_from([1, 1, 2, 2, 0, 3]))
+    keys = []
+    for _ in range(nkeys):
+        k = draw(key_exprs(cols))
+        if k[0] not in [x[0] for x in keys]:      # the same key twice: see C05 known finding
+            keys.append(k)
+    nkeys = len(keys)
+    naggs = draw(st.integers(1, 3)) if nkeys else draw(st.integers(1, 3))
+    aggs = [draw(agg_exprs(cols)) for _ in range(naggs)]
+    hidden = [draw(st.integers(0, 4)) == 0 for _ in keys]
+    if nkeys and all(hidden) and draw(st.booleans()):
+        hidden[0] = False
+    slots = [('key', i) for i in range(nkeys) if not hidden[i]] + [('agg', i) for i in range(naggs)]
+    slots = draw(st.permutations(slots))
+    tl = []
+    pos_of_key = {}
+    for kind, i in slots:
+        if kind == 'key':
+            e = keys[i][0]
+            alias = f'k{i}' if draw(st.integers(0, 3)) == 0 else None
+            pos_of_key[i] = (len(tl) + 1, alias if alias else (e[1] if e[0] == 'col' else None))
+            tl.append((e, alias))
+        else:
+            tl.append((aggs[i][0], f'a{i}' if draw(st.integers(0, 2)) == 0 else None))
+    implicit = nkeys > 0 and not any(hidden) and draw(st.integers(0, 2)) == 0
+    gb = None
+    if nkeys == 0:
+        gb = None
+    elif not implicit:
+        gb = []
+        for i in draw(st.permutations(range(nkeys))):
+            modes = ['expr']
+            if i in pos_of_key:
+                modes.append('pos')
+                if pos_of_key[i][1] is not None:
+                    modes.append('name')
+            mode = draw(st.sampled_from(modes))
+            if mode == 'pos':
+                gb.append(pos_of_key[i][0])
+            elif mode == 'name':
+                gb.append(['col', pos_of_key[i][1]])
+            else:
+                gb.append(keys[i][0])
+        if draw(st.integers(0, 3)) == 0:
+            # a redundant second reference to one of the keys (same or different form)
+            i = draw(st.integers(0, nkeys - 1))
+            forms = [keys[i][0]]
+            if i in pos_of_key:
+                forms.append(pos_of_key[i][0])
+                if pos_of_key[i][1] is not None:
+                    forms.append(['col', pos_of_key[i][1]])
+            gb.insert(draw(st.integers(0, len(gb))), draw(st.sampled_from(forms)))
+    hv = None
+    if gb is not None and (draw(st.integers(0, 2)) == 0 if having is None else having):
+        hv = draw(having_exprs(cols))
+    w = draw(st.none() | exprs('bool', cols, 2))
+    ob = None
+    if order if order is not None else draw(st.booleans()):
+        ob = draw(order_clauses(cols, tl, True, [k for k, _ in keys]))
+        env = dict(cols)
+
+        def ok(k):
+            e = tl[k - 1][0] if isinstance(k, int) else k
+            if e[0] == 'col' and e[1] not in env:      # reference to an alias
+                e = next(x for x, a in tl if a == e[1])
+            try:
+                return bql.infer(e, env) in KEYTYPES
+            except bql.IllTyped:
+                return False
+        ob = [(k, d) for k, d in ob if ok(k)] or None
+    dis = draw(st.booleans()) if distinct is None else distinct
+    lim = draw(st.none() | st.sampled_from([0, 1, 2, 3, 5, 100])) if limit is None else limit
+    return bql.select(tl, ('table', table['name']), w, group_by=gb, having=hv, order_by=ob, distinct=dis, limit=lim)
